@@ -332,6 +332,22 @@ func wrapInt(t string, b *types.Basic) string {
 	return "(- (mod (+ " + t + " " + half + ") " + m + ") " + half + ")"
 }
 
+// wrapNear wraps a term known to lie within one period of the range of b (sum or difference of two in-range values,
+// conversion between integer types of the same width): a case distinction instead of mod, which SMT solvers handle
+// far better.
+func wrapNear(t string, b *types.Basic) string {
+	lo, hi, ok := intRange(b)
+	if !ok {
+		return wrapInt(t, b)
+	}
+	bits, _ := intBits(b)
+	m := pow2(bits)
+	if strings.HasPrefix(lo, "-") {
+		lo = "(- " + lo[1:] + ")"
+	}
+	return fmt.Sprintf("(ite (> %s %s) (- %s %s) (ite (< %s %s) (+ %s %s) %s))", t, hi, t, m, t, lo, t, m, t)
+}
+
 func sortedKeys[V any](m map[string]V) []string {
 	var ks []string
 	for k := range m {
